@@ -18,3 +18,13 @@ func (e RuntimeError) Error() string { return string(e) }
 func (e RuntimeError) RuntimeError() {}
 
 var _ = vrt.Symbolic
+
+// IsPointer models cqrs.isPointer (reflection): v must be a non-nil pointer.
+//
+//verif:model github.com/ThreeDotsLabs/watermill/components/cqrs.isPointer
+func IsPointer(v any) error {
+	if vrt.IsNonNilPointer(v) {
+		return nil
+	}
+	return RuntimeError("non-pointer command/event")
+}
